@@ -32,7 +32,7 @@ Print Assumptions C11_identity_mismatch_denied.
    every proxy whose VerifiedIdentity was set by authorize. *)
 Theorem C11_verified_identity_wellformed : forall en cns csa ids v p,
   authorize en cns csa ids = AuthAccepted (Some v) ->
-  verified p = Some v -> no_slash (p_pkp p) = true -> wf_proxy p = true.
+  verified p = Some v -> wf_proxy p = true.
 Proof. exact authorize_wf. Qed.
 Print Assumptions C11_verified_identity_wellformed.
 
@@ -106,60 +106,21 @@ Theorem C11_no_key_without_right : forall w ops,
 Proof. exact no_key_without_right. Qed.
 Print Assumptions C11_no_key_without_right.
 
-(* Full strength: "the response to a request does not depend on the history that preceded it on the
-   cache" is FALSE of the code (finding C11-pkp-format-follows-first-requester): the cache key carries the
-   hash of the provider in the proxy's own ProxyConfig, the secret is built with
-   ProxyConfigOrDefault(mesh default).  With a mesh-default provider, a proxy that sends no ProxyConfig and
-   one that sends a ProxyConfig without provider share the key but are served different encodings. *)
-Definition ex_fmt_world : world :=
-  {| clusters := ["c1"]; config_cluster := "c1";
-     secrets := [ {| s_cluster := "c1"; s_ns := "a"; s_name := "tls"; s_tls := true; s_ca := false |} ];
-     configmaps := []; authz := [("c1", "a", "gw")]; mesh_pkp := 1 |}.
-Definition ex_fmt_proxy (cfg : option N) : proxy :=
-  {| verified := Some {| id_td := "cluster.local"; id_ns := "a"; id_sa := "gw" |};
-     p_cluster := "c1"; p_cfg := cfg; p_pkp := ""; p_refs := None |}.
-
-Theorem C11_order_independent_refuted : exists w ops p names r,
-  wf_world w = true /\ forallb wf_op ops = true /\ wf_proxy p = true /\
-  fst (generate w (run_cache w [] ops) p names r) <> fst (generate w [] p names r).
-Proof.
-  exists ex_fmt_world, [OGen (ex_fmt_proxy None) ["kubernetes://tls"] (RForced true)],
-         (ex_fmt_proxy (Some 0%N)), ["kubernetes://tls"], (RForced true).
-  vm_compute. repeat split; discriminate.
-Qed.
-Print Assumptions C11_order_independent_refuted.
-
-(* What holds.  (a) Up to the encoding of the key (inline / cryptomb / qat) the response never depends
-   on the history: same names answered, with the same certificate / key / CA of the same stored object. *)
-Theorem C11_order_independent_partial : forall w ops p names r,
+(* The response to a request does not depend on the history that preceded it on the cache (exact
+   equality, including the encoding of the key: since fix 31f7dc3 the cache key carries the hash of the
+   provider the secret is encoded with). *)
+Theorem C11_order_independent : forall w ops p names r,
   wf_world w = true -> forallb wf_op ops = true -> wf_proxy p = true ->
-  map erase (fst (generate w (run_cache w [] ops) p names r)) = map erase (fst (generate w [] p names r)).
-Proof. exact order_independent_erased. Qed.
-Print Assumptions C11_order_independent_partial.
-
-(* (b) Exactly, whenever the encoding each proxy is entitled to is a function F of the hash component of
-   its cache keys (e.g. every proxy sends its ProxyConfig, or the mesh default has no provider). *)
-Theorem C11_order_independent_same_format_partial : forall F w ops p names r,
-  wf_world w = true -> forallb wf_op ops = true -> wf_proxy p = true ->
-  forallb (fmt_op F w) ops = true -> fmt_by_hash F w p = true ->
   fst (generate w (run_cache w [] ops) p names r) = fst (generate w [] p names r).
-Proof. exact order_independent_fmt. Qed.
-Print Assumptions C11_order_independent_same_format_partial.
+Proof. exact order_independent. Qed.
+Print Assumptions C11_order_independent.
 
-(* All responses of a history are, one by one, the answers an empty cache would give (up to encoding;
-   exactly under the premise of (b)). *)
-Theorem C11_history_is_pointwise_partial : forall w ops,
+(* All responses of a history are, one by one, the answers an empty cache would give. *)
+Theorem C11_history_is_pointwise : forall w ops,
   wf_world w = true -> forallb wf_op ops = true ->
-  map (map erase) (run w [] ops) =
-  map (fun g => match g with (p, n, r) => map erase (fst (generate w [] p n r)) end) (gens ops).
-Proof. exact run_is_pointwise_erased. Qed.
-Print Assumptions C11_history_is_pointwise_partial.
-
-Theorem C11_history_is_pointwise_same_format_partial : forall F w ops,
-  wf_world w = true -> forallb wf_op ops = true -> forallb (fmt_op F w) ops = true ->
   run w [] ops = map (fun g => match g with (p, n, r) => fst (generate w [] p n r) end) (gens ops).
-Proof. exact run_is_pointwise_fmt. Qed.
-Print Assumptions C11_history_is_pointwise_same_format_partial.
+Proof. exact run_is_pointwise. Qed.
+Print Assumptions C11_history_is_pointwise.
 
 (* Never across namespaces: after any history, a proxy without verified references receives private
    keys only from its own verified namespace, from the cluster it reads, and only when authorised. *)
@@ -196,25 +157,32 @@ Print Assumptions C11_kube_authorize_history_partial.
 Definition ex_world : world :=
   {| clusters := ["c1"]; config_cluster := "c1";
      secrets := [ {| s_cluster := "c1"; s_ns := "a"; s_name := "tls"; s_tls := true; s_ca := false |} ];
-     configmaps := []; authz := [("c1", "a", "gw")]; mesh_pkp := 0 |}.
+     configmaps := []; authz := [("c1", "a", "gw")]; mesh_pkp := PCryptomb; h_cryptomb := "1"; h_qat := "2" |}.
 Definition ex_proxy (ns sa : string) : proxy :=
   {| verified := Some {| id_td := "cluster.local"; id_ns := ns; id_sa := sa |};
-     p_cluster := "c1"; p_cfg := Some 0%N; p_pkp := ""; p_refs := None |}.
-Definition ex_anon : proxy := {| verified := None; p_cluster := "c1"; p_cfg := None; p_pkp := ""; p_refs := None |}.
+     p_cluster := "c1"; p_cfg := Some PNone; p_refs := None |}.
+(* a proxy that sends no ProxyConfig and therefore gets the mesh default provider (the former finding) *)
+Definition ex_default (ns sa : string) : proxy :=
+  {| verified := Some {| id_td := "cluster.local"; id_ns := ns; id_sa := sa |};
+     p_cluster := "c1"; p_cfg := None; p_refs := None |}.
+Definition ex_anon : proxy := {| verified := None; p_cluster := "c1"; p_cfg := None; p_refs := None |}.
 Definition ex_ops : list op :=
   [ OGen (ex_proxy "a" "gw") ["kubernetes://tls"] (RForced true);
     OGen (ex_proxy "a" "default") ["kubernetes://tls"] (RForced true);
     OGen (ex_proxy "b" "gw") ["kubernetes://a/tls"; "kubernetes://tls"] (RForced true);
-    OGen ex_anon ["kubernetes://tls"; "kubernetes://a/tls"] (RForced true) ].
+    OGen ex_anon ["kubernetes://tls"; "kubernetes://a/tls"] (RForced true);
+    OGen (ex_default "a" "gw") ["kubernetes://tls"] (RForced true);
+    OGen (ex_proxy "a" "gw") ["kubernetes://tls"] (RForced true) ].
 
-Example C11_example_hypotheses :
-  wf_world ex_world = true /\ forallb wf_op ex_ops = true /\ forallb (fmt_op (fun _ => 0%N) ex_world) ex_ops = true.
+Example C11_example_hypotheses : wf_world ex_world = true /\ forallb wf_op ex_ops = true.
 Proof. vm_compute. auto. Qed.
 
 Example C11_example_history :
-  run ex_world [] ex_ops = [ [("kubernetes://tls", CTls ("c1", "a", "tls") 0)]; []; []; [] ]
+  run ex_world [] ex_ops = [ [("kubernetes://tls", CTls ("c1", "a", "tls") PNone)]; []; []; [];
+                              [("kubernetes://tls", CTls ("c1", "a", "tls") PCryptomb)];
+                              [("kubernetes://tls", CTls ("c1", "a", "tls") PNone)] ]
   /\ cache_get (cache_key {| sr_type := TKube; sr_name := "tls"; sr_ns := "a"; sr_rn := "kubernetes://tls"; sr_cluster := "c1" |} "")
-               (run_cache ex_world [] ex_ops) = Some ("kubernetes://tls", CTls ("c1", "a", "tls") 0).
+               (run_cache ex_world [] ex_ops) = Some ("kubernetes://tls", CTls ("c1", "a", "tls") PNone).
 Proof. vm_compute. auto. Qed.
 
 Example C11_example_kube :
